@@ -33,7 +33,7 @@ REACH = {"quick": {"op:tail": 300, "op:insert": 300, "op:sort": 500, "op:unique"
                    "tail:n=0": 30, "insert:at-or-past-end": 60, "insert:negative": 60, "sort:none-present": 150, "len:0": 200}}
 
 OPS = ["modify_dep", "modify_if2", "modify2", "fill_after_inplace_key", "filter_pred", "filter_kv", "filter_out_pred", "filter_out_kv", "sort", "unique", "select", "unselect", "rename", "modify", "modify_if",
-       "fill_missing_keys", "fill_missing_keys_all", "append", "extend", "insert", "add", "mul", "reverse", "head", "tail", "slice", "copy", "drop_na", "extend_self", "add_self"]
+       "fill_missing_keys", "fill_missing_keys_all", "append", "extend", "insert", "add", "mul", "reverse", "head", "tail", "slice", "copy", "drop_na", "extend_self", "add_self", "rmul", "setitem"]
 
 def gen_items(rng, n, start=0):
     items = []
@@ -70,6 +70,8 @@ def generate(rng, tier):
         elif op == "insert": arg = (rng.choice(["0", "mid", "len", "len+3", "-1", "-len", "1", "-len-2"]), {"_tag_": 3000 + rng.randint(0, 99), "a": 7})
         elif op == "add": arg = gen_items(rng, rng.randint(0, 3), start=4000 + rng.randint(0, 50) * 10)
         elif op == "mul": arg = rng.choice([0, 1, 3, -1, 2])
+        elif op == "rmul": arg = rng.choice([0, 1, 2, 3])
+        elif op == "setitem": arg = (rng.choice(["0", "-1", "mid"]), {"_tag_": 5000 + rng.randint(0, 99), "a": rng.choice([1, 2, None]), "b": "x"})
         elif op in ("head", "tail"): arg = rng.choice(["0", "1", "len-1", "len", "len+2", "none", "2"])
         elif op == "slice": arg = rng.choice([(None, 2, None), (1, None, None), (None, None, 2), (None, None, -1), (-2, None, None), (1, -1, 1), (0, 0, None), (5, 1, -2)])
         elif op == "drop_na": arg = rng.choice([["a"], ["b", "c"], []])
@@ -159,6 +161,11 @@ def model(L, op, arg):
         out.insert(i, item)
         return out
     if op == "mul": return L * arg
+    if op == "rmul": return arg * L
+    if op == "setitem":
+        out = list(L)
+        out[{"0": 0, "-1": -1, "mid": n // 2}[arg[0]]] = arg[1]
+        return out
     if op == "reverse": return L[::-1]
     if op in ("head", "tail"):
         k = {"0": 0, "1": 1, "len-1": max(0, n - 1), "len": n, "len+2": n + 2, "none": 3, "2": 2}[arg]
@@ -205,6 +212,11 @@ def apply(di, data, op, arg):
         return data.insert(i, dict(item))
     if op == "add": return data + di.ListOfDicts([dict(x) for x in arg])
     if op == "mul": return data * arg
+    if op == "rmul": return arg * data
+    if op == "setitem":
+        # item assignment edits the list in place; the new item supports attribute access like the others
+        data[{"0": 0, "-1": -1, "mid": n // 2}[arg[0]]] = dict(arg[1])
+        return data
     if op == "extend_self": return data.extend(data)
     if op == "add_self": return data + data
     if op == "reverse": return data.reverse()
@@ -232,6 +244,7 @@ def usable(L, op, arg):
         # renaming onto a key that already exists in an item (and is not itself renamed away) is a collision whose winner is unspecified
         olds = {old for _, old in arg}
         return not any(new in x and new not in olds for x in L for new, _ in arg)
+    if op == "setitem": return len(L) >= 1
     if op == "modify_dep": return all(x.get("a") is None or (isinstance(x.get("a"), (int, float)) and not isinstance(x.get("a"), bool)) for x in L)
     if op in ("modify", "modify_if"): return all("_tag_" in x for x in L)
     if op in ("filter_pred", "filter_out_pred"): return all(("a" in x and "b" in x and "_tag_" in x) for x in L)
